@@ -43,13 +43,29 @@ pub fn classify(r: Result<Option<RespValue>, RespError>, rest: Vec<u8>) -> Obs {
 }
 
 // ---------------------------------------------------------------- Gallina printers
+/// byte string in the compact spelling understood by `Resp.bn` / `Resp.bl`
+pub fn gb(b: &[u8]) -> String {
+    fn one(c: &[u8]) -> String {
+        let mut s = String::with_capacity(4 + 2 * c.len());
+        s.push_str("0x1");
+        for x in c.iter().rev() {
+            s.push_str(&format!("{:02x}", x));
+        }
+        s
+    }
+    if b.len() <= 32 {
+        format!("(bn {})", one(b))
+    } else {
+        format!("(bl [{}])", b.chunks(32).map(one).collect::<Vec<_>>().join("; "))
+    }
+}
 pub fn g_rv(v: &RespValue) -> String {
     match v {
-        RespValue::SimpleString(s) => format!("SStr {}", g_bytes(s.as_bytes())),
-        RespValue::Error(s) => format!("RErr {}", g_bytes(s.as_bytes())),
+        RespValue::SimpleString(s) => format!("SStr {}", gb(s.as_bytes())),
+        RespValue::Error(s) => format!("RErr {}", gb(s.as_bytes())),
         RespValue::Integer(i) => format!("RInt {}", g_z(*i as i128)),
         RespValue::BulkString(None) => "Bulk None".to_string(),
-        RespValue::BulkString(Some(d)) => format!("Bulk (Some {})", g_bytes(d)),
+        RespValue::BulkString(Some(d)) => format!("Bulk (Some {})", gb(d)),
         RespValue::Array(items) => format!("Arr {}", g_list(items.iter().map(|x| format!("({})", g_rv(x))))),
         RespValue::Null => "RNull".to_string(),
     }
@@ -57,9 +73,9 @@ pub fn g_rv(v: &RespValue) -> String {
 
 pub fn g_obs(o: &Obs) -> String {
     match o {
-        Obs::Done(v, r) => format!("(Done ({}) {})", g_rv(v), g_bytes(r)),
-        Obs::More(k, r) => format!("(More {} {})", g_bool(*k), g_bytes(r)),
-        Obs::Fail(c, r) => format!("(Fail {} {})", c, g_bytes(r)),
+        Obs::Done(v, r) => format!("(Done ({}) {})", g_rv(v), gb(r)),
+        Obs::More(k, r) => format!("(More {} {})", g_bool(*k), gb(r)),
+        Obs::Fail(c, r) => format!("(Fail {} {})", c, gb(r)),
         Obs::Panic(_) => "Panic".to_string(),
     }
 }
@@ -391,7 +407,7 @@ pub fn mutate(r: &mut Rng, base: &[u8]) -> Vec<u8> {
                     let nasty: &[&[u8]] = &[
                         b"-2", b"-1", b"-0", b"+3", b"18446744073709551615", b"18446744073709551616",
                         b"9223372036854775807", b"9223372036854775808", b"-9223372036854775808", b"536870912",
-                        b"536870913", b"99999999999999999999999", b"", b"1e3", b" 1", b"0x10", b"00000002", b"4294967296",
+                        b"536870913", b"99999999999999999999999", b"", b"1e3", b" 1", b"0x10", b"00000002", b"100000000",
                     ];
                     let rep = r.pick(nasty).to_vec();
                     b.splice(i + 1..j, rep);
